@@ -143,6 +143,20 @@ pub fn run(ctx: &mut crate::Ctx) {
         pair!("select.reset_limit", { let mut s = sel(&a); s.limit(a.n).offset(3).reset_limit(); s }, { let mut s = sel(&a); s.offset(3); s });
         pair!("select.reset_offset", { let mut s = sel(&a); s.limit(a.n).offset(3).reset_offset(); s }, { let mut s = sel(&a); s.limit(a.n); s });
 
+        // ---- setters called twice: the last call decides
+        pair!("select.limit twice", { let mut s = sel(&a); s.limit(a.n + 1).limit(a.n); s }, { let mut s = sel(&a); s.limit(a.n); s });
+        pair!("select.offset twice", { let mut s = sel(&a); s.offset(a.n + 1).offset(a.n); s }, { let mut s = sel(&a); s.offset(a.n); s });
+        pair!("select.lock twice", { let mut s = sel(&a); s.lock(LockType::Update).lock(LockType::Share); s }, { let mut s = sel(&a); s.lock(LockType::Share); s });
+        pair!("select.distinct then distinct_on", { let mut s = sel(&a); s.distinct().distinct_on([id(&a.b)]); s }, { let mut s = sel(&a); s.distinct_on([id(&a.b)]); s });
+        pair!("insert.returning twice", { let mut i = Query::insert(); i.into_table(id(&a.t)).columns([id(&a.a)]).values_panic([a.e1.clone()]).returning_col(id(&a.a)).returning_col(id(&a.b)); i },
+            { let mut i = Query::insert(); i.into_table(id(&a.t)).columns([id(&a.a)]).values_panic([a.e1.clone()]).returning_col(id(&a.b)); i });
+        pair!("insert.on_conflict twice", { let mut i = Query::insert(); i.into_table(id(&a.t)).columns([id(&a.a)]).values_panic([a.e1.clone()]).on_conflict(OnConflict::column(id(&a.a)).do_nothing().to_owned()).on_conflict(OnConflict::column(id(&a.b)).update_column(id(&a.a)).to_owned()); i },
+            { let mut i = Query::insert(); i.into_table(id(&a.t)).columns([id(&a.a)]).values_panic([a.e1.clone()]).on_conflict(OnConflict::column(id(&a.b)).update_column(id(&a.a)).to_owned()); i });
+        pair!("update.limit twice", { let mut u = Query::update(); u.table(id(&a.t)).value(id(&a.a), a.v1.clone()).limit(a.n + 1).limit(a.n); u }, { let mut u = Query::update(); u.table(id(&a.t)).value(id(&a.a), a.v1.clone()).limit(a.n); u });
+        // ---- accumulating calls: every call adds, in call order
+        pair!("select.from twice", { let mut s = Query::select(); s.column(id(&a.a)).from(id(&a.t)).from(id(&a.u)); s }, { let mut s = Query::select(); s.column(id(&a.a)); s.from(id(&a.t)); s.from(id(&a.u)); s });
+        pair!("select.and_having twice", { let mut s = sel(&a); s.group_by_col(id(&a.a)).and_having(a.e1.clone()).and_having(a.e2.clone()); s }, { let mut s = sel(&a); s.group_by_col(id(&a.a)).cond_having(Cond::all().add(a.e1.clone()).add(a.e2.clone())); s });
+
         // ---- ORDER BY abbreviations (shared by SELECT / UPDATE / DELETE / window)
         let nulls = if a.flag { NullOrdering::First } else { NullOrdering::Last };
         macro_rules! ordered { ($kind:expr, $mk:expr) => {
